@@ -205,6 +205,33 @@ def rule_histories(ctx, tci):
                 ok, why = False, "bars are filled %s of %s: every bar but the last must be full and none empty" % ([str(b[0]) for b in bars], [str(b[1]) for b in bars])
         ctx.check(ok, R, "from_chords[%s]" % label, repo.find_method(tci, "from_chords").where(), "Track.from_chords(%r, %r) (%s)" % (chords, dur, label), why)
 
+    # (c2) a chord list after a bar filled with values whose sum has a large denominator: the room that is left is not a
+    #      "nice" value, and the piece cut to fill it must still be placed (lengths compared to within 1e-9)
+    for label, fill in (("elevenths, thirteenths ...", (11, 13, 14, 15, 128)), ("septuplets and a quintuplet", (7, 7, 14, 28, 20, 12)), ("nice values", (4, 8, 12))):
+        def go(it, fill=fill):
+            t = new(it, tci)
+            rs = [it.call_method(t, "add_notes", ["C", v], {}, None) for v in fill]
+            it.call_method(t, "from_chords", [["C", None], 1], {}, None)
+            ents = []
+            for b in t.attrs["bars"]:
+                ents.append([(1.0 / float(e[1]), None if e[2] is None else len(e[2].attrs["notes"])) for e in b.attrs["bar"]])
+            return rs, ents
+        v, err = run1("from_chords after " + label, go)
+        ok, why = err is None, err
+        if ok:
+            rs, bars_ = v
+            flat = [e for b in bars_ for e in b]
+            chord_len = sum(ln for ln, n in flat if n == 3)
+            rest_len = sum(ln for ln, n in flat if n is None)
+            fills = [sum(ln for ln, n in b) for b in bars_]
+            if not all(r is True for r in rs):
+                ok, why = False, "the fill itself is refused: %s" % (rs,)
+            elif abs(chord_len - 1.0) > 1e-9 or abs(rest_len - 1.0) > 1e-9:
+                ok, why = False, "the whole-note chord holds %.12f and the whole rest %.12f of the track (bars filled %s): a piece of the split item was not placed" % (chord_len, rest_len, ["%.6f" % f_ for f_ in fills])
+            elif any(abs(f_ - 1.0) > 1e-9 for f_ in fills[:-1]):
+                ok, why = False, "bars are filled %s: every bar but the last must be full" % (["%.9f" % f_ for f_ in fills],)
+        ctx.check(ok, R, "from_chords.odd-room[%s]" % label, repo.find_method(tci, "from_chords").where(), "add_notes('C', v) for v in %s, then from_chords(['C', None], 1)" % (fill,), why)
+
     # (e) '+' on a track takes what add_notes and add_bar take, and reports it
     for label, mkitem, want_entry in (("rest", lambda it: None, (Fraction(1, 4), None)), ("list of names", lambda it: ["C-4", "E-4"], (Fraction(1, 4), (48, 52))),
                                       ("name", lambda it: "C", (Fraction(1, 4), (48,))), ("Note", lambda it: new(it, noteci, "D", 4), (Fraction(1, 4), (50,))),
@@ -256,6 +283,27 @@ def rule_histories(ctx, tci):
         elif shared or set(conts[0]) & set(conts[1]):
             ok, why = False, "the two selected tracks store the same %s object: changing one track changes the other" % ("Bar" if shared else "NoteContainer")
     ctx.check(ok, R, "selection", repo.find_method(compci, "add_note").where(), "Composition.add_note(<bar>, 'C', <container>) to tracks [0, 1], then 'E' to [1]", why)
+
+    # (g2) a note that one of the selected tracks refuses (out of its instrument's range): the request is refused as a
+    #      whole, or it reaches every track that takes it -- never "the tracks before the refusing one, and no further"
+    for order in ([0, 1, 2], [1, 0, 2], [0, 2, 1]):
+        def go_ref(it, order=order):
+            c = new(it, compci)
+            ts = [new(it, tci), new(it, tci, new(it, imod.cls("Guitar"))), new(it, tci)]
+            for t in ts:
+                it.call_method(c, "add_track", [t], {}, None)
+            c.attrs["selected_tracks"] = list(order)
+            r = outcome(it, lambda: it.call_method(c, "add_note", ["C-2"], {}, None))
+            return r, [len(_flatten(t)[0]) for t in ts]
+        v, err = run1("refusing track %s" % order, go_ref)
+        ok, why = err is None, err
+        if ok:
+            r, counts = v
+            if r[0] != "raise" or r[1] != "InstrumentRangeError":
+                ok, why = False, "C-2 for a guitar track gives %s, expected the range error" % (r,)
+            elif counts not in ([0, 0, 0], [1, 0, 1]):
+                ok, why = False, "the note is refused with the range error, but the tracks now hold %s entries: the tracks selected before the guitar got it, the ones after did not" % counts
+        ctx.check(ok, R, "selection.refused%s" % order, repo.find_method(compci, "add_note").where(), "Composition.add_note('C-2') to tracks [plain, guitar, plain] selected as %s" % order, why)
 
     # (d) equality follows the contents (and never raises): tracks with a rest, compositions
     def go_eq(it):
@@ -569,17 +617,20 @@ def rule_composition(ctx):
     ok = bool(paths) and all(p.kind == "raise" and p.value == "UnexpectedObjectError" for p in paths)
     ctx.check(ok, R, "add_track.rejects", f.where(), "Composition.add_track(5)", "gives %s" % [(p.kind, p.value) for p in paths])
     f = repo.find_method(cci, "add_note")
-    x = Opaque("note")
+    # the item is a container (one selected track at most gets the object itself, the others may get copies of it)
+    x = AObj(repo.mod(NC).cls("NoteContainer"), {"notes": []}, name="item")
     rec = record_class(repo, TR, "Track", ["__add__"], result=Opaque("r"))
     for sel in ([0, 2], [1], []):
         def mk2():
-            ts = [stub(repo, TR, "Track", name="t%d" % i, bars=[]) for i in range(3)]
+            # (tracks without an instrument: whatever asks about the range first has nothing to refuse)
+            ts = [stub(repo, TR, "Track", name="t%d" % i, bars=[], instrument=None) for i in range(3)]
             return [AObj(cci, {"tracks": ts, "selected_tracks": list(sel)}, name="comp"), x]
         paths = run_method(repo, f, mk2, summaries=rec)
         ok = len(paths) == 1 and paths[0].kind == "return"
         if ok:
-            got = [(e[1][0].name, e[1][1]) for e in log_of(paths[0].interp)]
-            ok = got == [("t%d" % i, x) for i in sel]
+            got = [(e[1][0].name, e[1][1]) for e in log_of(paths[0].interp) if e[0] == "Track.__add__"]
+            same_kind = lambda o: o is x or (isinstance(o, AObj) and o.cls is x.cls and o.attrs.get("notes") == [])
+            ok = [g[0] for g in got] == ["t%d" % i for i in sel] and all(same_kind(g[1]) for g in got)
         ctx.check(ok, R, "add_note%s" % sel, f.where(), "Composition.add_note(note) with selection %s" % sel, "the note must reach exactly the selected tracks")
     f = repo.find_method(cci, "__add__")
     rec = record_class(repo, COMP, "Composition", ["add_track", "add_note"], result=Opaque("r"))
